@@ -1,10 +1,12 @@
 package quic
 
 // C15 / C17 part E3: interleavings of real goroutines on one real streamsMap.
-// Threads: up to three OpenStreamSync callers (one with a cancellable context), one
-// AcceptStream caller, an event thread (MAX_STREAMS frames, the cancellation, an incoming
-// stream) and optionally CloseWithError. Every order of their steps is executed at
-// quiescence granularity (each call runs until it returns or durably blocks).
+// Threads: up to three OpenStreamSync callers (one with a cancellable context), a thread of
+// non-blocking OpenStream calls (thread "N": one call per step, each call is a caller of its
+// own in the ledger), one AcceptStream caller, an event thread (MAX_STREAMS frames, the
+// cancellation, an incoming stream) and optionally CloseWithError. Every order of their
+// steps is executed at quiescence granularity (each call runs until it returns or durably
+// blocks).
 
 import (
 	"context"
@@ -35,7 +37,8 @@ var errC15E3Closed = errors.New("c15e3: connection closed")
 
 type c15e3Caller struct {
 	name    string
-	started int // global sequence number of the moment OpenStreamSync was called (0: not yet)
+	nonblk  bool // a non-blocking OpenStream / OpenUniStream call (never waits)
+	started int  // global sequence number of the moment OpenStream(Sync) was called (0: not yet)
 	waiting int // sequence number of the moment the call was first seen waiting (0: never waited)
 	ret     bool
 	id      protocol.StreamID
@@ -61,6 +64,7 @@ type c15e3World struct {
 type c15e3Variant struct {
 	Name       string
 	Callers    int // OpenStreamSync callers (the second one is cancellable)
+	Opens      int // non-blocking OpenStream calls made one after the other by one more thread ("N")
 	Events     []string
 	Close      bool // the connection closes its streams map ...
 	CloseAfter int  // ... after this many events
@@ -80,6 +84,12 @@ var c15e3Variants = func() []c15e3Variant {
 		{Name: "uni-3callers-2credits-cancel", Callers: 3, Events: []string{"max1", "cancel", "max2"}, Uni: true},
 		{Name: "2acceptors-2incoming", Callers: 0, Events: []string{"incoming", "incoming"}, Acceptor: true, Acceptor2: true},
 		{Name: "2acceptors-incoming-close", Callers: 0, Events: []string{"incoming"}, Close: true, Acceptor: true, Acceptor2: true},
+		// non-blocking OpenStream against queued OpenStreamSync callers while credit arrives
+		{Name: "1caller-open-1credit", Callers: 1, Opens: 1, Events: []string{"max1"}},
+		{Name: "uni-1caller-open-1credit", Callers: 1, Opens: 1, Events: []string{"max1"}, Uni: true},
+		{Name: "2callers-open-2credits", Callers: 2, Opens: 1, Events: []string{"max1", "max2"}},
+		{Name: "2callers-open-cancel-1credit", Callers: 2, Opens: 1, Events: []string{"cancel", "max1"}},
+		{Name: "1caller-2opens-close", Callers: 1, Opens: 2, Events: []string{"max1"}, Close: true},
 	}
 	var out []c15e3Variant
 	for _, v := range base {
@@ -138,6 +148,32 @@ func c15e3Scenario(v c15e3Variant) func() *sched.Scenario {
 				c.ret = true
 			}}})
 		}
+		if v.Opens > 0 {
+			var steps []func()
+			for i := 0; i < v.Opens; i++ {
+				c := &c15e3Caller{name: fmt.Sprintf("N#%d", i+1), nonblk: true}
+				w.callers = append(w.callers, c)
+				steps = append(steps, func() {
+					w.seq++
+					c.started = w.seq
+					if v.Uni {
+						s, err := w.m.OpenUniStream()
+						if err == nil {
+							c.id = s.StreamID()
+						}
+						c.err = err
+					} else {
+						s, err := w.m.OpenStream()
+						if err == nil {
+							c.id = s.StreamID()
+						}
+						c.err = err
+					}
+					c.ret = true
+				})
+			}
+			threads = append(threads, sched.Thread{Name: "N", Steps: steps})
+		}
 		var ev []func()
 		for _, e := range v.Events {
 			switch e {
@@ -172,7 +208,14 @@ func c15e3Scenario(v c15e3Variant) func() *sched.Scenario {
 			// frames are handled and the streams map is closed by the same goroutine (the
 			// connection's run loop), so the close is a step of the event thread; it may come
 			// after any number of the events (the remaining ones are then never handled)
-			closeStep := func() { w.closing = true; w.m.CloseWithError(errC15E3Closed); w.closed = true }
+			closeStep := func() {
+				if w.closing { // already closed by Cleanup (an execution that was cut short by a verdict)
+					return
+				}
+				w.closing = true
+				w.m.CloseWithError(errC15E3Closed)
+				w.closed = true
+			}
 			pos := min(v.CloseAfter, len(ev))
 			ev = append(append(append([]func(){}, ev[:pos]...), closeStep), ev[pos:]...)
 		}
@@ -251,6 +294,10 @@ func c15e3Scenario(v c15e3Variant) func() *sched.Scenario {
 				if !c.ret {
 					continue
 				}
+				var limitErr *StreamLimitReachedError
+				if c.nonblk && errors.As(c.err, &limitErr) {
+					continue // "opening blocks or fails instead": the non-blocking call failed
+				}
 				if c.err != nil && !errors.Is(c.err, context.Canceled) && !errors.Is(c.err, errC15E3Closed) {
 					return explore.Failf("e3:unexpected-error", "%s: caller %s returned %v", v.Name, c.name, c.err)
 				}
@@ -277,6 +324,17 @@ func c15e3Scenario(v c15e3Variant) func() *sched.Scenario {
 					return explore.Failf("e3:accept-order", "%s: %d-th accepted stream is %d (accepted so far, in order of return: %v)", v.Name, i, id, w.accepted)
 				}
 			}
+			// STREAMS_BLOCKED: at most once per limit value (the frames are queued inside the map's
+			// critical section, so this holds at every granularity)
+			blockedAt := map[protocol.StreamNum]bool{}
+			for _, f := range w.frames {
+				if sb, ok := f.(*wire.StreamsBlockedFrame); ok && sb.Type == st {
+					if blockedAt[sb.StreamLimit] {
+						return explore.Failf("e3:streams-blocked-duplicate", "%s: STREAMS_BLOCKED(%d) queued a second time for the same limit", v.Name, sb.StreamLimit)
+					}
+					blockedAt[sb.StreamLimit] = true
+				}
+			}
 			if !final {
 				return nil
 			}
@@ -296,6 +354,10 @@ func c15e3Scenario(v c15e3Variant) func() *sched.Scenario {
 				}
 				if len(got) < w.granted {
 					return explore.Failf("e3:lost-wakeup", "%s: caller %s is blocked, nothing can run, but only %d of %d permitted streams are open", v.Name, b, len(got), w.granted)
+				}
+				// the caller waits at the peer's current limit: the peer must have been told
+				if !blockedAt[protocol.StreamNum(w.granted)] {
+					return explore.Failf("e3:streams-blocked-missing", "%s: caller %s is blocked at the peer's limit %d, nothing can run, but no STREAMS_BLOCKED was queued for this limit", v.Name, b, w.granted)
 				}
 			}
 			return nil
